@@ -131,10 +131,12 @@ class _MultitaskGaussianLikelihoodBase(_GaussianLikelihoodBase):
             dtype, device = task_noise_covar_factor.dtype, task_noise_covar_factor.device
             ckl_init = KroneckerProductLinearOperator
 
+        # the likelihood's own batch shape takes part in the broadcast as well
+        batch_shape = torch.broadcast_shapes(shape[:-2], task_var_lt.batch_shape)
         eye_lt = ConstantDiagLinearOperator(
-            torch.ones(*shape[:-2], 1, dtype=dtype, device=device), diag_shape=shape[-2]
+            torch.ones(*batch_shape, 1, dtype=dtype, device=device), diag_shape=shape[-2]
         )
-        task_var_lt = task_var_lt.expand(*shape[:-2], *task_var_lt.matrix_shape)  # pyre-ignore[6]
+        task_var_lt = task_var_lt.expand(*batch_shape, *task_var_lt.matrix_shape)  # pyre-ignore[6]
 
         # to add the latent noise we exploit the fact that
         # I \kron D_T + \sigma^2 I_{NT} = I \kron (D_T + \sigma^2 I)
